@@ -57,7 +57,18 @@ func (e *StorageEngine) Put(ctx context.Context, obj *object.Object, objBin []by
 
 	// API 2.18+ system objects handling
 	switch obj.Type() {
-	case object.TypeTombstone, object.TypeLock, object.TypeLink:
+	case object.TypeTombstone:
+		// Shards check locks on their own only, but the lock may be stored
+		// on a shard that can't accept the tombstone right now (e.g. a
+		// read-only one): ask all of them first.
+		if target := obj.AssociatedObject(); !target.IsZero() {
+			locked, err := e.isLocked(oid.NewAddress(addr.Container(), target))
+			if err == nil && locked {
+				return apistatus.ErrObjectLocked
+			}
+		}
+		return e.broadcastObject(ctx, obj, objBin)
+	case object.TypeLock, object.TypeLink:
 		// Broadcast object to ALL shards to ensure availability everywhere.
 		return e.broadcastObject(ctx, obj, objBin)
 	default:
